@@ -182,6 +182,6 @@ theorem core3_accepts_only_llvm_numbering_in (ge : Core3.GEnv) (f g : Core3.Func
   · simp [ha] at h
 
 theorem core3_accepts_only_llvm_numbering (f g : Core3.Func) (h : Core3.translate f = some g) :
-    LLVMSpec.agreesFrom 0 (Core3.slotsOf f) = true := core3_accepts_only_llvm_numbering_in _ f g h
+    LLVMSpec.agreesFrom 0 (Core3.slotsOf f) = true := core3_accepts_only_llvm_numbering_in _ f g (Core3.translate_some f g h).1
 
 end Llir.Props.C08
